@@ -117,6 +117,12 @@ class DiGraphEx(nx.DiGraph):
         if target_nodes is not None:
             graph = graph.minimal_induced_subgraph(target_nodes).copy()
 
+        # networkx's subgraph/copy do not carry the extra attributes of DiGraphEx
+        graph.tag = self.tag
+        graph.debug = self.debug
+        graph.setup = self.setup
+        graph.compound_priority = self.compound_priority
+
         return graph
 
     @property
